@@ -223,7 +223,7 @@ func genSched(c *ctx, out string) {
 				tickAsync = true
 			}
 		case *ast.CommClause:
-			if es, ok := x.Comm.(*ast.ExprStmt); ok && exprStr(es.X) == "<-c.crlUpdateStop" {
+			if es, ok := x.Comm.(*ast.ExprStmt); ok && (exprStr(es.X) == "<-c.crlUpdateStop" || exprStr(es.X) == "<-crlUpdateStop") {
 				for _, s := range x.Body {
 					if _, ok := s.(*ast.ReturnStmt); ok {
 						stops = true
